@@ -105,7 +105,7 @@ fn in_bounds<const N: usize, const MAXD: usize>() {
             break;
         }
     }
-    cover!(n == 2, "two descriptors produced");
+    cover!(n >= 2, "several descriptors produced");
     vassert!(ok, "every produced descriptor is 8-aligned and lies inside the tag");
 }
 
